@@ -8,5 +8,5 @@ MCShapes == JsonDeserialize(IOEnv.VERIF_SHAPES)
 MCProps == {"C05", "C07"}
 MCScript == <<"SetPrior", "LoadRaw", "CopyFrom">>
 ASSUME PrintT("SHAPES " \o ToJson(MCShapes))
-INSTANCE Session WITH Shapes <- MCShapes, Script <- MCScript, Deep <- MCDeep, Props <- MCProps, ObjMode <- "all", RawMode <- "plans"
+INSTANCE Session WITH Shapes <- MCShapes, Script <- MCScript, Deep <- MCDeep, Props <- MCProps, ObjMode <- "all", RawMode <- "plans", EmptyMode <- "plain"
 ====
